@@ -180,6 +180,15 @@ def timeline_diff(a: dict, b: dict, tol: float = 1e-9, by_id: bool = False,
                 if not _phase_close(apps, bpps, max(tol, 1e-9)):
                     out.append(f"{n}[{i}]: post_phase_shift {apps} vs {bpps}")
                     break
+        ma, mb = ca.get("detmap"), cb.get("detmap")
+        if (ma is None) != (mb is None):
+            out.append(f"{n}: detuning map present on one side only")
+        elif ma is not None:
+            def table(m):
+                return {tuple(np.round(arr(c), 6) + 0.0): float(w) for c, w in zip(m.trap_coordinates, arr(m.weights))}
+            ta, tb = table(ma), table(mb)
+            if set(ta) != set(tb) or any(abs(ta[k] - tb[k]) > max(tol, 1e-9) for k in ta):
+                out.append(f"{n}: detuning map differs (trap -> weight): {sorted(ta.items())[:4]} vs {sorted(tb.items())[:4]}")
         ea, eb = ca["eom"], cb["eom"]
         if not eom_off:  # the off-detuning is only compared through the samples of the idle slots
             ea, eb = [x[:4] for x in ea], [x[:4] for x in eb]
